@@ -382,3 +382,70 @@ fn c00_value_json_size_ge16() {
   core::mem::forget(cddl);
 }
 }
+
+// ---------------------------------------------------------------- third batch (experiments): visit_type2 / visit_type
+
+with_validator_stubs! {
+/// CBOR `visit_type2` on a literal node: `Type2::UintValue` / `Type2::IntValue` reach the same
+/// verdict as the literal itself (one level of composition: type2 → value).
+#[kani::proof]
+#[kani::unwind(4)]
+fn c00_type2_cbor_literal() {
+  use cddl::ast::Type2;
+  let cddl = CDDL { rules: vec![], comments: None };
+  let v = any_cbor_int();
+  let neg: bool = kani::any();
+  let m: usize = kani::any();
+  kani::assume(m <= isize::MAX as usize && !(neg && m == 0));
+  let c = if neg { -(m as i128) } else { m as i128 };
+  let ti = Type2::IntValue { value: -(m as isize), span: (0, 0, 0) };
+  let tu = Type2::UintValue { value: m, span: (0, 0, 0) };
+  let t2 = if neg { &ti } else { &tu };
+  let mut val = CBORValidator::new(&cddl, cbor_int(v), None);
+  let r = <CBORValidator as Visitor<'_, '_, CErr>>::visit_type2(&mut val, t2);
+  let errs = cddl::validator::cbor::verif_hooks_occ::error_count(&val);
+  assert!(r.is_ok());
+  assert!((errs == 0) == (v == c));
+  kani::cover!(errs == 0 && neg);
+  kani::cover!(errs > 0);
+  core::mem::forget(r);
+  core::mem::forget(val);
+  core::mem::forget(cddl);
+}
+}
+
+with_validator_stubs! {
+/// JSON `visit_value` with `.size N` on a one-character string document (ASCII or a 2-byte
+/// scalar): the size of a text string is its length in *bytes* (RFC 8610 §3.8.1).
+#[kani::proof]
+#[kani::unwind(6)]
+fn c00_value_json_text_size() {
+  let cddl = CDDL { rules: vec![], comments: None };
+  let two: bool = kani::any();
+  let a: u8 = kani::any();
+  let n: usize = kani::any();
+  kani::assume(n <= 3);
+  let mut s = String::new();
+  if two {
+    kani::assume(a >= 0xa0 && a <= 0xbf);
+    s.push(char::from_u32(0x80 + (a as u32 - 0x80)).unwrap()); // U+00A0..U+00BF: two UTF-8 bytes
+  } else {
+    kani::assume(a >= 0x20 && a < 0x7f);
+    s.push(a as char);
+  }
+  let bytes = if two { 2usize } else { 1 };
+  let lit = Lit::UINT(n);
+  let mut val = JSONValidator::new(&cddl, JV::String(s), None);
+  cddl::validator::json::verif_hooks_state::set_ctrl(&mut val, Some(Op::SIZE));
+  let r = <JSONValidator as Visitor<'_, '_, JErr>>::visit_value(&mut val, &lit);
+  let errs = cddl::validator::json::verif_hooks_occ::error_count(&val);
+  assert!(r.is_ok());
+  kani::cover!(errs == 0 && two);
+  kani::cover!(errs > 0 && !two);
+  // `tstr .size N` with an unsigned N: exactly N bytes (RFC 8610 §3.8.1, `ip4 = bstr .size 4`)
+  assert!((errs == 0) == (bytes == n));
+  core::mem::forget(r);
+  core::mem::forget(val);
+  core::mem::forget(cddl);
+}
+}
